@@ -2,7 +2,7 @@ SPECIFICATION Spec
 CONSTANTS
   MaxParams = 3
   Params = {"la", "lb", "T", "Tb", "Td", "N", "Nd"}
-  CArgs = {"none", "same", "concrete", "foreign", "foreign2", "static"}
+  CArgs = {"none", "same", "concrete", "foreign", "foreign2", "foreign3", "static"}
   WCs = {"none", "default", "dedicated", "both"}
 INVARIANTS Emit Theorems
 CHECK_DEADLOCK FALSE
